@@ -17,11 +17,3 @@ INVARIANT MaupitiEquiv
 INVARIANT PadOK
 INVARIANT Ranges
 INVARIANT SelRanges
-INVARIANT ScaleIsCeil
-INVARIANT ShiftOptimal
-INVARIANT ErrOneSided
-INVARIANT BridgeRequant
-INVARIANT BridgeZP
-INVARIANT BridgeApprox
-INVARIANT BridgeScale
-INVARIANT BridgeSelect
